@@ -284,12 +284,16 @@ func (env *specEnv) eval(x SExpr) SV {
 	case *SLambda:
 		// array comprehension: a fresh array A with forall j. A[j] == body(j)
 		name := x.Var + "!l"
-		ne := env.bind(x.Var, SV{T: name, Sort: "Int"})
+		isrt, igt := "Int", types.Type(nil)
+		if x.Sort != "" && x.Sort != "int" {
+			isrt, igt = ghostSort(e, x.Sort)
+		}
+		ne := env.bind(x.Var, SV{T: name, Sort: isrt, GT: igt})
 		body := ne.eval(x.Body)
-		arr := e.fresh("lambda", fmt.Sprintf("(Array Int %s)", body.Sort))
+		arr := e.fresh("lambda", fmt.Sprintf("(Array %s %s)", isrt, body.Sort))
 		nb := tEq(tSel(arr, name), body.T)
-		e.assumeG(fmt.Sprintf("(forall ((%s Int)) (! %s :pattern ((select %s %s))))", name, nb, arr, name))
-		return SV{T: arr, Sort: fmt.Sprintf("(Array Int %s)", body.Sort)}
+		e.assumeG(fmt.Sprintf("(forall ((%s %s)) (! %s :pattern ((select %s %s))))", name, isrt, nb, arr, name))
+		return SV{T: arr, Sort: fmt.Sprintf("(Array %s %s)", isrt, body.Sort)}
 	case *SSel:
 		return env.sel(x)
 	case *SIndex:
@@ -496,6 +500,24 @@ func (env *specEnv) ident(name string) SV {
 			}
 		}
 	}
+	// iteration state of the k-th range over a map: rangeseen / rangecount (k = 0) or rangeseen1, rangecount1, ...
+	for _, pre := range []string{"rangeseen", "rangecount"} {
+		if strings.HasPrefix(name, pre) {
+			suffix := strings.TrimPrefix(name, pre)
+			ord := 0
+			if suffix != "" {
+				n, err := strconv.Atoi(suffix)
+				if err != nil {
+					break
+				}
+				ord = n
+			}
+			h := fmt.Sprintf("$g$%s%d", pre, ord)
+			if srt, declared := e.heapSort[h]; declared {
+				return SV{T: e.hget(env.live(), h, srt), Sort: srt}
+			}
+		}
+	}
 	if g, ok := e.W.C.GhostVar[name]; ok {
 		srt, _ := ghostSort(e, g.Sort)
 		return SV{T: e.hget(env.cur, "$gv$"+name, srt), Sort: srt}
@@ -677,6 +699,13 @@ func (env *specEnv) sel(x *SSel) SV {
 						env.fail("%s.%s not found", id.Name, x.Sel)
 					}
 					return env.object(obj)
+				}
+				// a sentinel error of a standard package that this program does not happen to load (libspecs mention
+				// io.EOF in packages that never import io): sentinels are distinct constants named by package path
+				if _, isLocal := e.debugVars[id.Name]; !isLocal && (x.Sel == "EOF" || strings.HasPrefix(x.Sel, "Err")) {
+					if _, known := map[string]bool{"io": true, "os": true, "context": true, "errors": true, "fs": true}[id.Name]; known {
+						return SV{T: e.sentinelByName(id.Name + "." + x.Sel), Sort: "Iface", GT: types.Universe.Lookup("error").Type()}
+					}
 				}
 			}
 		}
